@@ -9,9 +9,40 @@ use swiftness_air::domains::StarkDomains;
 use swiftness_stark::types::StarkProof;
 use swiftness_transcript::transcript::Transcript;
 
-fn one<L: LayoutTrait + GenericLayoutTrait>(layout: &str, proof: &StarkProof, points: u64, rng: &mut Rng) -> Vec<Value> {
+/// names of the builtins a dynamic-layout parameter set switches on
+fn enabled_builtins(pi: &swiftness_air::public_memory::PublicInput) -> Option<Vec<&'static str>> {
+    let d = pi.dynamic_params.as_ref()?;
+    let t = [("pedersen", d.uses_pedersen_builtin), ("range_check", d.uses_range_check_builtin), ("ecdsa", d.uses_ecdsa_builtin), ("bitwise", d.uses_bitwise_builtin),
+             ("ec_op", d.uses_ec_op_builtin), ("keccak", d.uses_keccak_builtin), ("poseidon", d.uses_poseidon_builtin), ("range_check96", d.uses_range_check96_builtin),
+             ("add_mod", d.uses_add_mod_builtin), ("mul_mod", d.uses_mul_mod_builtin)];
+    Some(t.iter().filter(|(_, u)| *u != 0).map(|(n, _)| *n).collect())
+}
+/// parameter sets of the dynamic layout other than the shipped one: one builtin off, everything off, everything on
+fn dynamic_variants(proof: &StarkProof) -> Vec<(String, StarkProof)> {
+    let mut out = Vec::new();
+    let dp0 = match proof.public_input.dynamic_params.clone() { Some(d) => d, None => return out };
+    let with = |f: &dyn Fn(&mut swiftness_air::dynamic::DynamicParams)| -> StarkProof {
+        let mut p: StarkProof = serde_json::from_value(serde_json::to_value(proof).unwrap()).unwrap();
+        let mut d = dp0.clone(); f(&mut d); p.public_input.dynamic_params = Some(d); p };
+    out.push(("pedersen-off".to_string(), with(&|d| d.uses_pedersen_builtin = 0)));
+    out.push(("range_check-off".to_string(), with(&|d| d.uses_range_check_builtin = 0)));
+    out.push(("core-only".to_string(), with(&|d| { d.uses_pedersen_builtin = 0; d.uses_range_check_builtin = 0; })));
+    out.push(("all-on".to_string(), with(&|d| {
+        let r = dp0.pedersen_builtin_row_ratio.max(1);
+        d.uses_ecdsa_builtin = 1; d.uses_bitwise_builtin = 1; d.uses_ec_op_builtin = 1; d.uses_keccak_builtin = 1; d.uses_poseidon_builtin = 1;
+        d.uses_range_check96_builtin = 1; d.uses_add_mod_builtin = 1; d.uses_mul_mod_builtin = 1;
+        if d.ecdsa_builtin_row_ratio == 0 { d.ecdsa_builtin_row_ratio = r; } if d.bitwise_row_ratio == 0 { d.bitwise_row_ratio = r; }
+        if d.ec_op_builtin_row_ratio == 0 { d.ec_op_builtin_row_ratio = r; } if d.keccak_row_ratio == 0 { d.keccak_row_ratio = r; }
+        if d.poseidon_row_ratio == 0 { d.poseidon_row_ratio = r; } if d.range_check96_builtin_row_ratio == 0 { d.range_check96_builtin_row_ratio = r; }
+        if d.add_mod_row_ratio == 0 { d.add_mod_row_ratio = r; } if d.mul_mod_row_ratio == 0 { d.mul_mod_row_ratio = r; }
+    })));
+    out
+}
+
+fn one<L: LayoutTrait + GenericLayoutTrait>(layout: &str, proof: &StarkProof, points: u64, rng: &mut Rng, variant: &str) -> Vec<Value> {
     let mut out = Vec::new();
     let pi = &proof.public_input;
+    let enabled = enabled_builtins(pi);
     let d = StarkDomains::new(proof.config.log_trace_domain_size, proof.config.log_n_cosets);
     let n1 = L::get_num_columns_first(pi).unwrap();
     let n2 = L::get_num_columns_second(pi).unwrap();
@@ -31,14 +62,16 @@ fn one<L: LayoutTrait + GenericLayoutTrait>(layout: &str, proof: &StarkProof, po
             c[i] = Felt::ONE;
             match eval_c(&c) { Ok(Ok(v)) => units.push(v), Ok(Err(e)) => { fail = Some(e); break; } Err(p) => { fail = Some(format!("panic {p}")); break; } }
         }
-        if let Some(e) = fail { out.push(json!({"ev":"linear.fail","layout":layout,"which":"composition","why":e})); continue; }
+        // a synthetic parameter set the evaluator cannot work with (e.g. a division that does not come out) is not a finding
+        if let Some(e) = fail { if variant == "shipped" { out.push(json!({"ev":"linear.fail","layout":layout,"which":"composition","why":e})); } else { out.push(json!({"ev":"linear.skip","layout":layout,"variant":variant,"why":e})); } continue; }
         let mut rand = Vec::new();
         for r in 0..3 {
             let c: Vec<Felt> = if r == 2 { let a = rng.felt(); (0..n).map(|i| a.pow(i as u64)).collect() } else { (0..n).map(|_| rng.felt()).collect() };
             if let Ok(Ok(v)) = eval_c(&c) { rand.push(json!({"c": hexs(c.iter()), "out": hex(&v)})); }
         }
         let zero = eval_c(&vec![Felt::ZERO; n]).ok().and_then(|x| x.ok()).map(|v| hex(&v));
-        out.push(json!({"ev":"linear","layout":layout,"which":"composition","point":k,"n":n,"units":hexs(units.iter()),"rand":rand,"zero":zero}));
+        out.push(json!({"ev":"linear","layout":layout,"variant":variant,"enabled":enabled,"which":"composition","point":k,"n":n,"units":hexs(units.iter()),"rand":rand,"zero":zero}));
+        if variant != "shipped" { continue; }      // the DEEP evaluator does not depend on the builtin switches
         // DEEP / OODS evaluator
         let m = L::MASK_SIZE + L::CONSTRAINT_DEGREE;
         let cols: Vec<Felt> = (0..n1 + n2 + L::CONSTRAINT_DEGREE).map(|_| rng.felt()).collect();
@@ -59,7 +92,7 @@ fn one<L: LayoutTrait + GenericLayoutTrait>(layout: &str, proof: &StarkProof, po
             if let Ok(Ok(v)) = eval_d(&c) { rand.push(json!({"c": hexs(c.iter()), "out": hex(&v)})); }
         }
         let zero = eval_d(&vec![Felt::ZERO; m]).ok().and_then(|x| x.ok()).map(|v| hex(&v));
-        out.push(json!({"ev":"linear","layout":layout,"which":"deep","point":k,"n":m,"units":hexs(units.iter()),"rand":rand,"zero":zero}));
+        out.push(json!({"ev":"linear","layout":layout,"variant":variant,"which":"deep","point":k,"n":m,"units":hexs(units.iter()),"rand":rand,"zero":zero}));
     }
     out
 }
@@ -68,13 +101,17 @@ fn one<L: LayoutTrait + GenericLayoutTrait>(layout: &str, proof: &StarkProof, po
 pub fn run(args: &[String]) {
     let mut t = Out::file(&args[0]);
     let points: u64 = args[1].parse().unwrap();
-    let bs = bases();
+    let mut bs: Vec<(String, StarkProof, String)> = Vec::new();
+    for (layout, proof) in bases() {
+        if layout == "dynamic" { for (v, p) in dynamic_variants(&proof) { bs.push((layout.clone(), p, v)); } }
+        bs.push((layout, proof, "shipped".to_string()));
+    }
     let seeds: Vec<u64> = { let mut r = Rng::from_env(0xC16); bs.iter().map(|_| r.next()).collect() };
     let jobs: Vec<usize> = (0..bs.len()).collect();
     let res = par_map(&jobs, n_threads(), |_, i| {
-        let (layout, proof) = &bs[*i];
+        let (layout, proof, variant) = &bs[*i];
         let mut rng = Rng(seeds[*i]);
-        real::dispatch!(layout.as_str(), one, layout, proof, points, &mut rng)
+        real::dispatch!(layout.as_str(), one, layout, proof, points, &mut rng, variant)
     });
     for evs in res { for e in evs { t.line(&json!({"ev":"reset"})); t.line(&e); } }
 }
